@@ -1448,3 +1448,20 @@ package yqlib
 //@   requires d != nil && validCtx(context) && expressionNode != nil
 //@   at GetMatchingNodes: assert @selection-is-evaluated-read-only {C03,C08} arg1.DontAutoCreate && arg1.MatchingNodes == context.MatchingNodes && arg2 == expressionNode.RHS
 //@   at deleteFromArray: assert @deletes-the-selected-element {C03} arg0 == candidate.Parent && 0 <= idxOfText(sprintv(childPath)) && idxOfText(sprintv(childPath)) < len(parentNode.Content) && parentNode.Content[idxOfText(sprintv(childPath))] == candidate
+
+// ---------------------------------------------------------------------------------------------
+// operator_compare.go: <, <=, >, >= agree with the sort order wherever they are defined (C15)
+
+//@ pred relHolds(prefs, c) = (prefs.OrEqual && c == 0) || ite(prefs.Greater, c > 0, c < 0)
+
+//@ func compareDateTime
+//@   props C11
+//@   requires lhs != nil && rhs != nil
+
+//@ func compareScalars
+//@   props C15 C11
+//@   requires lhs != nil && rhs != nil
+//@   ensures @integers-agree {C15} implies(lhs.Tag == "!!int" && rhs.Tag == "!!int", (result1 == nil) == (intOk(lhs.Value) && intOk(rhs.Value)) && implies(result1 == nil, result0 == relHolds(prefs, sign(intOf(lhs.Value) - intOf(rhs.Value)))))
+//@   ensures @strings-agree {C15} implies(lhs.Tag == "!!str" && rhs.Tag == "!!str" && !timeOk(ite(context.datetimeLayout != "", context.datetimeLayout, "2006-01-02T15:04:05Z07:00"), lhs.Value), result1 == nil && result0 == relHolds(prefs, strcmp(lhs.Value, rhs.Value)))
+//@   ensures @null-sorts-first {C15} implies(lhs.Tag == "!!null" && (rhs.Tag == "!!int" || rhs.Tag == "!!float" || rhs.Tag == "!!bool"), result1 == nil && result0 == relHolds(prefs, 0 - 1))
+//@   ensures @strings-that-look-like-times-compare-as-strings {C15} implies(lhs.Tag == "!!str" && rhs.Tag == "!!str" && context.datetimeLayout == "" && result1 == nil, result0 == relHolds(prefs, strcmp(lhs.Value, rhs.Value)))
